@@ -30,7 +30,10 @@ META = {
             "inside package directories, a nested package pkg/pkg with rules of equal base names) and compares it "
             "after each call (impl:arguments-modified), the model states that the result is a function of the "
             "values passed (Caco/LoadArgs.v; refuted for names resolved in place), and the translator extracts "
-            "every write to a slice or map parameter (gen_params_not_written).",
+            "every write to a slice or map parameter (gen_params_not_written); build files that are symbolic links "
+            "(to another package's build file, to a file outside src, dangling, to a directory, chains, with "
+            "sub-builds below them) are what the path resolves to (Caco/LoadLinks.v; refuted for a test by lstat; "
+            "gen_build_file_follows_links: readBuildFile tests through osutil.IsRegular = os.Stat).",
     "note": "Trusted: Coq kernel + vm_compute; harness/cmd/c11 + checks/c11.py comparison and error-message "
             "projection; name resolution (makeRelPath/makePath) is C12's subject and enters as resolved names; "
             "JSONx parsing, os.Lstat and the file system are modelled, not verified; only file_set and bundle "
